@@ -108,7 +108,7 @@ func (e *engine) Generate(seed uint64, idx int, tier string, avoid []harness.Fin
 		c.Cap = []int{0, 0, 1, 2, 4, 16}[r.Intn(6)]
 		nc := 1 + r.Intn(3)
 		for i := 0; i < nc; i++ {
-			c.Cons = append(c.Cons, []string{"range", "pop", "select", "select-tick", "select-many"}[r.Intn(5)])
+			c.Cons = append(c.Cons, []string{"range", "pop", "select", "select-tick", "select-many", "select-spawn"}[r.Intn(6)])
 		}
 		c.TimeoutMs = []int{1, 10, 100}[r.Intn(3)]
 		if r.Pct(40) {
@@ -198,6 +198,10 @@ func (c *Case) program(sfx string) program {
 				// is told to stop through its own channel right before the close
 				// and then drains what is left
 				fmt.Fprintf(&b, " (run (let ((d1 (make-channel 1)) (d2 (make-channel 1)) (d3 (make-channel 1)) (d4 (make-channel 1)) (d5 (make-channel 1)) (d6 (make-channel 1)) (d7 (make-channel 1)) (d8 (make-channel 1))) (block done (dotimes (i 1000000) (select (q%[1]d x (block drain (dotimes (j 1000000) (let ((y (channel-pop c))) (if y (sim-emit \"got\" %[1]d y) (return-from drain nil))))) (return-from done nil)) (d1 x 1) (d2 x 1) (d3 x 1) (d4 x 1) (c x (when x (sim-emit \"got\" %[1]d x))) (d5 x 1) (d6 x 1) (d7 x 1) (d8 x 1)))) (sim-emit \"cdone\" %[1]d)))\n", k)
+			case "select-spawn":
+				// the clause hands its variable to a routine that outlives
+				// the clause body: every receive needs its own binding
+				fmt.Fprintf(&b, " (run (progn (block done (dotimes (i 1000000) (select (c x (if x (run (sim-emit \"got\" %d x)) (return-from done nil)))))) (sim-emit \"cdone\" %d)))\n", k, k)
 			case "select":
 				fmt.Fprintf(&b, " (run (progn (block done (dotimes (i 1000000) (select (c x (if x (sim-emit \"got\" %d x) (return-from done nil)))))) (sim-emit \"cdone\" %d)))\n", k, k)
 			default:
@@ -615,6 +619,9 @@ func (c *Case) judgeS1(out runOut) *harness.Violation {
 		return viol("conservation", "item %d was received %d times but never pushed", x, n)
 	}
 	for k, xs := range perCons {
+		if k < len(c.Cons) && c.Cons[k] == "select-spawn" {
+			continue // the reporting routines run in any order
+		}
 		last := map[int]int{}
 		for _, x := range xs {
 			p := x / 1000
